@@ -35,6 +35,7 @@ struct Init {
     m.run = runCase;
     m.show = showCase;
     m.parse = parseCase;
+    m.enumerator = enumerateSafety;   // capacities 1..2, all contents over {a,b}, single operations, argument grid incl. npos-1/npos
   }
 } init;
 }  // namespace
